@@ -174,6 +174,17 @@ var (
 	scratchUsed []int32
 )
 
+// Dying reports whether the attached execution is being torn down: its threads are unwinding
+// (runtime.Goexit runs the deferred calls of the code under test, typically unlocks of locks the
+// model has already taken away from them). The shims then leave the real primitives alone: the
+// instance is discarded with the execution.
+//
+//go:norace
+func Dying() bool {
+	s := cur.Load()
+	return s != nil && s.aborted
+}
+
 // Active reports whether a scheduler is attached (false = pass-through).
 func Active() bool { return cur.Load() != nil }
 
